@@ -45,8 +45,15 @@ class Spec(SeqSpec):
     prop = 'C18'
 
     def __init__(self, tier):
+        self.tier = tier
         self.depth = 2 if tier == 'quick' else 3
         self.max_variants = 1 if tier == 'quick' else 2
+
+    def roots(self):
+        r = [('empty', {}, []), ('empty-flat-loose', {'loose_prefix_len': 0}, [])]
+        if self.tier != 'quick':
+            r.append(('empty-sha1-p3-bigpack', {'hash_type': 'sha1', 'loose_prefix_len': 3, 'pack_size_target': 4 * 1024 ** 3}, []))
+        return r
 
     def core_ops(self, root_name):
         return core_alphabet() + [('q', 'has'), ('q', 'bulk'), ('q', 'list'), ('q', 'streams'), ('loosen', ABSENT_IDX)]
